@@ -130,7 +130,10 @@ def check_dmrg(case, rec):
             elif case.get('edit_between'):
                 # user-style edit between the invocations (norm 3): the second call must start from the current tensors
                 k = case['psi']['seed'] % L
-                psi.A[k] = 3.0 * psi.A[k]
+                if case['psi']['seed'] % 2 and np.iscomplexobj(psi.A[k]):
+                    psi.A[k] *= 3.0          # in place: the array object (and its id) stays the same
+                else:
+                    psi.A[k] = 3.0 * psi.A[k]
                 rec.label('edit_between_calls')
             if case.get('edit_H') and quench_ham(H, case['ham']):
                 # parameter quench on the same MPO object between the invocations: the second call must minimise the operator the
